@@ -108,22 +108,26 @@ inductive Prog (α : Type) where
 def noteMemo (st : State) (k : PKey) : State :=
   { st with eqMemo := (memoAtoms k).filter (fun v => !st.eqMemo.contains v) ++ st.eqMemo }
 
+def insMemo (st : State) (s : Store) (tk : TKey) (v : Val) : State := { st with memo := ((s, tk), v) :: st.memo }
+
+def insAddr (st : State) (tk : TKey) (a : Nat) : State := { st with addr := (tk, a) :: st.addr }
+
+def logRow (st : State) (row : Nat) : State := { st with db := st.db ++ [row] }
+
 /-- Run a compilation against the process state. `none` = the assertion
 "Two different addresses cannot be assigned to the same tensor." escaped. -/
 def run {α : Type} : Prog α → State → Option α × State
   | .ret a, st => (some a, st)
   | .memo s k v cont, st =>
-    let tk := tkey st.gen k
-    match lookup (s, tk) st.memo with
+    match lookup (s, tkey st.gen k) st.memo with
     | some v' => run (cont v') (noteMemo st k)
-    | none => run (cont v) { noteMemo st k with memo := ((s, tk), v) :: st.memo }
+    | none => run (cont v) (insMemo (noteMemo st k) s (tkey st.gen k) v)
   | .assign k a next, st =>
-    let tk := tkey st.gen k
-    match lookup tk st.addr with
+    match lookup (tkey st.gen k) st.addr with
     | some a' => if a' = a then run next (noteMemo st k) else (none, st)
-    | none => run next { noteMemo st k with addr := (tk, a) :: st.addr }
+    | none => run next (insAddr (noteMemo st k) (tkey st.gen k) a)
   | .addrOf k cont, st => run (cont (lookup (tkey st.gen k) st.addr)) st
-  | .log row next, st => run next { st with db := st.db ++ [row] }
+  | .log row next, st => run next (logRow st row)
   | .dump cont, st => run (cont st.db) st
 
 inductive Entry where
@@ -176,6 +180,34 @@ def modelledStores : List String :=
 lit hash(str(depth_offsets)), lit dilation, <weight_value_id>]` is the key of `Store.weights` -/
 def weightKeyFields : List String :=
   ["npu_block_type", "ofm_block_depth", "ofm_depth_step", "dilation", "weight_value_id"]
+
+/-! ## The hypothesis under which a compilation cannot see the history: `cache_key_sufficient`
+
+Spelled out per store, for a value function `F` that is the same for every request:
+
+* memo tables (`weights`, `arch`, `conflict`): a key is either *local* — it contains an identity drawn by this
+  compilation, so no earlier compilation can have inserted it — or the value inserted under it is `F store key`,
+  a function of the key alone. For the compressed-weight cache this says: `weight_value_id` is a fresh `uuid4`
+  (weights read from the model file), or else the five key fields determine the encoded stream — which is false
+  for a memoised `value_id`, because the stream also depends on the accelerator (cores, micro-block), on the IFM
+  bit depth and on the weight shape (`weight_cache_key_insufficient_witness`);
+  for `default_arch_cache`: the value is built from the accelerator and constants only;
+  for the conflict memo: both key components are objects of this compilation.
+* the tensor address map (`strict = true`): every identity that is given an address is local. With
+  `strict = false` global identities (memoised equivalence ids) are allowed, and the theorem needs the map to
+  have been cleared (`convert_bytes`).
+* the debug database (`strict = true`): never dumped; with `strict = false` it may be dumped and the theorem
+  needs it to have been cleaned. -/
+inductive Suff {α : Type} (F : Store → PKey → Val) (strict : Bool) : Prog α → Prop where
+  | ret (a : α) : Suff F strict (.ret a)
+  | memo (s : Store) (k : PKey) (v : Val) (cont : Val → Prog α) :
+      (isLocal k = false → v = F s k) → (∀ v', Suff F strict (cont v')) → Suff F strict (.memo s k v cont)
+  | assign (k : PKey) (a : Nat) (next : Prog α) :
+      (strict = true → isLocal k = true) → Suff F strict next → Suff F strict (.assign k a next)
+  | addrOf (k : PKey) (cont : Option Nat → Prog α) :
+      (strict = true → isLocal k = true) → (∀ r, Suff F strict (cont r)) → Suff F strict (.addrOf k cont)
+  | log (row : Nat) (next : Prog α) : Suff F strict next → Suff F strict (.log row next)
+  | dump (cont : List Nat → Prog α) : strict = false → (∀ rows, Suff F strict (cont rows)) → Suff F strict (.dump cont)
 
 /-! ## The writer: sort, then emit
 
